@@ -2908,7 +2908,8 @@ def check_C17(ck, res, replay):
                 cl = [base + i for i in range(ncl)]
                 base += 10
                 acct = {c: None for c in cl}          # account name the client believes it is logged in as
-                pw = {c: rng.pick(["pw%dq%d", " pw%d q%d ", "pw%dq%d  ", "\tpw%dq%d"]) % (c, rng.below(100)) for c in cl}
+                # (some passwords are longer than 64 / 72 bytes: every byte of a password counts)
+                pw = {c: rng.pick(["pw%dq%d", " pw%d q%d ", "pw%dq%d  ", "\tpw%dq%d", "L" * 70 + "pw%dq%d", "m" * 64 + "%d-%d"]) % (c, rng.below(100)) for c in cl}
                 names = {c: "acc%dh%d" % (c, hno) for c in cl}
                 pnames = ["shared", "p1", "p2"]
                 exists = {}
@@ -2920,7 +2921,7 @@ def check_C17(ck, res, replay):
                     if k < 10:
                         req = ("register", names[c], pw[c])
                     elif k < 22:
-                        req = ("login", names[c], pw[c] if rng.chance(4, 6) else rng.pick(["wrong", pw[c].strip() + " ", " " + pw[c].strip(), pw[c].strip()]))
+                        req = ("login", names[c], pw[c] if rng.chance(4, 6) else rng.pick(["wrong", pw[c].strip() + " ", " " + pw[c].strip(), pw[c].strip(), pw[c][:-1] + "#", pw[c] + "x", pw[c][:-1]]))
                     elif k < 26:
                         req = ("login", names[rng.pick(cl)], "guess")          # somebody else's account, wrong password
                     elif k < 30:
@@ -3084,6 +3085,19 @@ def check_C17(ck, res, replay):
                 res.violations.append({"key": "credentials:refused-update-changes-account",
                                        "what": "a temporary user's rename to a name that is taken (answer %s) changed the account: temp=%s afterwards, login to the generated name with the refused password answers %s" % (st_u2, still_temp, st_l),
                                        "events": run.model_lines[-8:]})
+            # scripted scenario: long passwords - two passwords that agree on their first 64 (72, 128) bytes are different passwords
+            for n_, plen in enumerate((64, 72, 128)):
+                kk = base + 60 + n_
+                nm_ = "longpw%d" % plen
+                good, other = "a" * plen + "tail-one", "a" * plen + "tail-two"
+                run.do(kk, ("register", nm_, good))
+                st_g, _ = run.do(kk, ("login", nm_, good))
+                st_o, _ = run.do(base + 70 + n_, ("login", nm_, other))
+                st_p, _ = run.do(base + 70 + n_, ("login", nm_, "a" * plen))
+                nreq += 4
+                if st_g != 200 or st_o == 200 or st_p == 200:
+                    res.violations.append({"key": "credentials:login-accepted", "what": "an account with a password of %d bytes: login with the password answers %s, with another password that shares its first %d bytes %s, with those %d bytes alone %s" % (
+                        plen + 8, st_g, plen, st_o, plen, st_p), "events": run.model_lines[-4:]})
             # scripted scenario: a rename that changes only the capitalisation is a rename like any other - session and problems
             # follow the new name, the old name is free again and whoever registers it sees nothing of the first user
             k0, k1 = base + 50, base + 51
